@@ -26,7 +26,14 @@ func VerifC07() {
 		id := packet.ID(msg.Payload[0])
 		if msg.QOS == 2 {
 			accepted[id]++
-			vAssert(accepted[id] <= 1, "A4: a QoS 2 message is handed on for delivery at most once per handshake")
+			if accepted[id] > 1 {
+				if be.reforwarded(msg) {
+					vKnownFinding("C07-late-ack-reforward")
+					accepted[id] = 1
+				} else {
+					vAssert(false, "A4: a QoS 2 message is handed on for delivery at most once per handshake")
+				}
+			}
 		} else if msg.QOS == 1 {
 			acked1[id]++
 		}
@@ -190,4 +197,71 @@ func VerifC07Retransmit() {
 		vAssert(acceptedN == 1, "the message was handed on exactly once when the handshake completed")
 	}
 	vCover("c07-retransmit-end")
+}
+
+// VerifC07LateAck: a backend that acknowledges now, later or never while the publisher
+// retransmits PUBREL: no PUBCOMP before the backend accepted, at most one acceptance.
+func VerifC07LateAck() {
+	be := newVBackend(3) // ack now / stash / never
+	be.resumed = true
+	acceptedN := 0
+	be.onAccept = func(msg *packet.Message) {
+		acceptedN++
+		if acceptedN > 1 {
+			if be.reforwarded(msg) {
+				// known finding: a PUBREL retransmitted while the backend has not yet
+				// acknowledged the first hand-over is handed over a second time
+				vKnownFinding("C07-late-ack-reforward")
+				acceptedN = 1
+			} else {
+				vAssert(false, "A4: a QoS 2 message is handed on for delivery at most once per handshake")
+			}
+		}
+	}
+	conn := newVConn(false)
+	conn.onSend = func(pkt packet.Generic) {
+		if _, ok := pkt.(*packet.Pubcomp); ok {
+			vAssert(acceptedN == 1, "A1: PUBCOMP only after the backend has accepted responsibility for the message")
+		}
+		if p, ok := pkt.(*packet.Puback); ok {
+			_ = p
+			vAssert(acceptedN == 1, "A1: PUBACK only after the backend has accepted responsibility for the message")
+		}
+	}
+	NewClient(be, conn)
+	conn.in <- mkConnect("pub", false, nil)
+	vQuiesce()
+	q := packet.QOS(1 + vChoice("qos", 2))
+	p := packet.NewPublish()
+	p.ID = 9
+	p.Message = packet.Message{Topic: "t", Payload: []byte{9}, QOS: q}
+	conn.in <- p
+	vQuiesce()
+	rounds := vLen("pubrels", 1, 2)
+	if q == 2 {
+		for i := 0; i < rounds; i++ {
+			conn.in <- &packet.Pubrel{ID: 9} // the second one is a retransmission
+			vQuiesce()
+			if vBool("release") {
+				be.release()
+				vQuiesce()
+			}
+		}
+	} else if vBool("release") {
+		be.release()
+		vQuiesce()
+	}
+	for be.release() {
+		vQuiesce()
+	}
+	if be.neverAcked == 0 && be.failed == 0 {
+		vCover("c07-lateack-acked")
+		vAssert(acceptedN == 1, "the message is accepted exactly once when the backend acknowledges")
+		if q == 2 {
+			vAssert(countType(conn, packet.PUBCOMP) >= 1, "the handshake completes once the backend has acknowledged")
+		} else {
+			vAssert(countType(conn, packet.PUBACK) == 1, "PUBACK after the acknowledgement")
+		}
+	}
+	vCover("c07-lateack-end")
 }
